@@ -144,6 +144,48 @@ let cmd_c15align toks =
   let block = extract_frame nan (nat_of_int nt) cols in
   String.concat " " (List.map hx (List.concat block))
 
+(* ---- C02: teval <none|V> <t> <x list> <p list> <term> ;  translate <species ids> <param ids> <vol id> <t id> <stree> ---- *)
+let cmd_teval toks =
+  let (v, r) = pop toks in let (t, r) = pop_fl r in let (x, r) = pop_flist r in let (p, r) = pop_flist r in
+  let (tm, _) = pop_term r in
+  hx (teval fl (if v = "none" then None else Some (fl_of_string v)) x p t tm)
+
+let rec pop_stree r : float stree * string list =
+  let (k, r) = pop r in
+  match k with
+  | "sym" -> let (u, r) = pop r in let (a, r) = pop_nat r in let (b, r) = pop_nat r in (SSymbol (u = "1", a, b), r)
+  | "add" -> let (l, r) = pop_list pop_stree r in (SAdd l, r)
+  | "mul" -> let (l, r) = pop_list pop_stree r in (SMul l, r)
+  | "max" -> let (l, r) = pop_list pop_stree r in (SMax l, r)
+  | "min" -> let (l, r) = pop_list pop_stree r in (SMin l, r)
+  | "pow" -> let (b, r) = pop_stree r in let (e, r) = pop_stree r in (SPow (b, e), r)
+  | "exp" -> let (a, r) = pop_stree r in (SExp a, r)
+  | "log" -> let (a, r) = pop_stree r in (SLog a, r)
+  | "hea" -> let (a, r) = pop_stree r in (SHeaviside a, r)
+  | "abs" -> let (a, r) = pop_stree r in (SAbs a, r)
+  | "num" -> let (v, r) = pop_fl r in (SNumber v, r)
+  | "other" -> (SOther, r)
+  | _ -> raise (Parse ("stree " ^ k))
+
+let rec term_tokens (t : float term) : string list =
+  let lst k l = (k :: string_of_int (List.length l) :: List.concat (List.map term_tokens l)) in
+  match t with
+  | TConst v -> ["c"; hx v] | TSpecies i -> ["s"; string_of_int (int_of_nat i)] | TParam i -> ["p"; string_of_int (int_of_nat i)]
+  | TVolume -> ["vol"] | TTime -> ["t"]
+  | TSum l -> lst "sum" l | TProd l -> lst "prod" l | TMax l -> lst "max" l | TMin l -> lst "min" l
+  | TPow (b, e) -> "pow" :: (term_tokens b @ term_tokens e)
+  | TExp a -> "exp" :: term_tokens a | TLog a -> "log" :: term_tokens a
+  | TStep a -> "step" :: term_tokens a | TAbs a -> "abs" :: term_tokens a
+
+let cmd_translate toks =
+  let (sp, r) = pop_list pop_nat toks in let (pa, r) = pop_list pop_nat r in
+  let (v, r) = pop_nat r in let (t, r) = pop_nat r in
+  let (s, _) = pop_stree r in
+  match translate { e_species = sp; e_params = pa; e_volume = v; e_time = t } s with
+  | TOk tm -> String.concat " " ("OK" :: term_tokens tm)
+  | TUnknownName n -> "UNKNOWN " ^ string_of_int (int_of_nat n)
+  | TNotANumber -> "NOTANUMBER"
+
 let () =
   try
     while true do
@@ -161,6 +203,8 @@ let () =
           | "dispatch" -> cmd_dispatch toks
           | "delaydraw" -> cmd_delaydraw toks
           | "c15align" -> cmd_c15align toks
+          | "teval" -> cmd_teval toks
+          | "translate" -> cmd_translate toks
           | "iface" -> cmd_iface toks
           | _ -> "ERR unknown command " ^ cmd)
           with e -> "ERR " ^ Printexc.to_string e in
